@@ -66,6 +66,24 @@ fn run(c: &Case) -> Verdict {
         }
     }
 
+    // the same object as both operands (aliasing): x op x through every form
+    for (op, opname, want) in [
+        (BinOp::And, "AND", c.a.clone()),
+        (BinOp::Or, "OR", c.a.clone()),
+        (BinOp::Xor, "XOR", c.a.xor(&c.a)),
+    ] {
+        for (f, name) in BIN_FORMS.iter().enumerate() {
+            let r = lib!(format!("{} form `{}` with the same object on both sides", opname, name), a.bin_form(op, f, a.as_ref()));
+            if let Err(e) = same_fn(r.as_ref(), &want) {
+                return fail(
+                    format!("bin:alias:{}", opname),
+                    format!("{} form `{}` on {} with the same object {} as both operands: {}", opname, name, c.fam.label(), c.a.short(), e),
+                );
+            }
+            ensure!(a.blocks() == a_blocks, "bin:operand-changed", "{} form `{}` changed its aliased operand {}", opname, name, c.a.short());
+        }
+    }
+
     let nontrivial = !c.a.is_const() && !c.b.is_const() && c.b != c.a && c.b != c.a.not();
     let mut labels = base_labels(c.fam, &c.a);
     if c.a.w.len() >= 2 && c.a.w.windows(2).any(|w| w[0] != w[1]) {
@@ -102,7 +120,7 @@ fn enumerate(t: Tier, shard: usize, nshards: usize, f: &mut dyn FnMut(Case) -> b
 pub fn def() -> PropDef {
     PropDef {
         id: "C01",
-        rule: "cases = (family, a, b) with a from the table generator (uniform/wordwise/shared-word/sparse/symmetric/expression/constant classes, n in 0..=12 for LutN and 0..=14 for Lut) and b fresh or related to a (equal, complement, 1-2 bits or one word changed); every case runs all 4 NOT forms and all 8 forms of AND, OR, XOR and compares value(m) for every m with the definition. Non-trivial = a and b non-constant and b not in {a, !a}; distinct by (family, a, b). Exhaustive part: every ordered pair of functions of n <= 3, both families (both tiers).",
+        rule: "cases = (family, a, b) with a from the table generator (uniform/wordwise/shared-word/sparse/symmetric/expression/constant classes, n in 0..=12 for LutN and 0..=14 for Lut) and b fresh or related to a (equal, complement, 1-2 bits or one word changed); every case runs all 4 NOT forms and all 8 forms of AND, OR, XOR — on (a, b) and on (a, a) with the same object passed as both operands — and compares value(m) for every m with the definition. Non-trivial = a and b non-constant and b not in {a, !a}; distinct by (family, a, b). Exhaustive part: every ordered pair of functions of n <= 3, both families (both tiers).",
         assumptions: vec![
             "value() and from_blocks()/set_bit() are used to load and observe tables; a table that cannot be loaded and read back is skipped (label skipped:unloadable), not reported here",
             "bits above 2^n in blocks() are deliberately not inspected (that is C02)",
